@@ -29,6 +29,7 @@ import (
 )
 
 const verifDir = "/verif"
+
 // repoDir is /repo; VERIF_REPO points the driver at another checkout (used only to try seeded
 // changes on a scratch worktree while other checks are running against /repo).
 var repoDir = func() string {
@@ -241,14 +242,14 @@ func (b *built) cleanup() {
 // worker management
 
 type workerOut struct {
-	results []*RunResult
-	crashed bool
-	crashAt uint64 // seed that was running when the worker died
+	results   []*RunResult
+	crashed   bool
+	crashAt   uint64 // seed that was running when the worker died
 	crashPlan *Plan
-	stderr  string
-	nextIdx int // index into job.Seeds from which to continue (after crash/restart)
-	done    bool
-	hang    bool
+	stderr    string
+	nextIdx   int // index into job.Seeds from which to continue (after crash/restart)
+	done      bool
+	hang      bool
 }
 
 var jobSeq int
@@ -971,7 +972,7 @@ func writeReplay(prop string, r *RunResult, v *Violation, plan *Plan, origLen in
 		"property": propOf(prop, v), "check": prop, "invariant": v.Invariant, "signature": v.Signature, "seed": r.Seed,
 		"world": r.World, "plan": plan, "original_plan_len": origLen,
 		"violation": map[string]any{"step": v.Step, "virtual_time_ns": v.VTimeNs, "detail": v.Detail},
-		"digest": r.Digest, "repo_head": gitHead(repoDir), "toolchain": goBin(),
+		"digest":    r.Digest, "repo_head": gitHead(repoDir), "toolchain": goBin(),
 	}
 	b, _ := json.MarshalIndent(rep, "", " ")
 	os.WriteFile(path, b, 0o644)
